@@ -42,7 +42,7 @@ ASSUMPTIONS = [
     'one sendall is atomic; the gate holds a frame before any byte is taken',
 ]
 BUDGET = {
-    'quick': {'examples': 700},
+    'quick': {'examples': 1100},
     'thorough': {'examples': 3000, 'shards': 16},
 }
 
@@ -60,6 +60,8 @@ def strategy(tier):
       (2, st.just(['hold'])),
       (2, st.just(['release'])),
       (1, st.just(['reopen'])),
+      # a request whose deadline fires while its frame sits in a blocked socket write, then the write completes
+      (1, st.just(['timeout_in_write'])),
   ]
   transport = st.fixed_dictionaries({
       'kind': st.just('transport'),
@@ -72,7 +74,7 @@ def strategy(tier):
       'ops': sized_list(st.one_of(st.just(['get']), st.just(['get']), st.tuples(st.just('release'), st.integers(0, 12)).map(list),
                                   st.tuples(st.just('rerelease'), st.integers(0, 12)).map(list)), 0, 60),
   })
-  return st.one_of(transport, transport, transport, pool)
+  return weighted((3, transport), (1, pool))
 
 
 def enumerate_plans(tier, k, n):
@@ -349,11 +351,11 @@ class Run(object):
       self.flags.add('unknown_reply')
     self.send_reply(tag)
 
-  def timeout(self, i):
+  def timeout(self, i, which=None):
     cands = [r for r in self.reqs if r.conn == self.gen and r.evt is not None and not r.timed_out and not r.answered and not r.completions]
     if not cands:
       return
-    r = cands[i % len(cands)]
+    r = which if which in cands else cands[i % len(cands)]
     r.timed_out = True
     if r.written:
       self.flags.add('timeout_after_transmission')
@@ -422,6 +424,15 @@ def _exec_transport(plan):
       run.release()
     elif k == 'reopen':
       run.reopen()
+    elif k == 'timeout_in_write':
+      if run.held is None:
+        run.hold()
+        run.request(True)
+        advance(0.002)
+        if run.blocked is not None and run.blocked != 'other':
+          run.timeout(0, which=run.blocked)
+        advance(0.002)
+        run.release()
     else:
       raise HarnessError(op)
     advance(0.002)
